@@ -13,6 +13,8 @@ for pid in sorted(P.PROPS):
     sp = P.PROPS[pid]
     text = GENERIC if sp.get("level", "proof") == "proof" else (
         "PARTLY deductive. " + sp.get("explanation", "") + " For the functions under contract: " + GENERIC[0].lower() + GENERIC[1:])
+    if sp.get("gap"):
+        text += " NOT under contract (covered only by the bounded explorers below): " + sp["gap"]
     ba = sp.get("bounded_always", {})
     if ba:
         text += (" Bounded (labelled bounded, run on every check, never counted as proved): " +
